@@ -1,5 +1,6 @@
 import OdlModel.Common
 import OdlModel.Model.ProxProg
+import OdlModel.Model.ProxAux
 import OdlModel.Model.ProxFloat
 open OdlModel OdlModel.Prox OdlModel.ProxFloat
 
@@ -10,10 +11,9 @@ wire).  One line in, one line out. -/
 /-- `prox id=NAME flags=01 alias=0|1 n=N mc=M w=.. p=.. lam=.. sigma=.. gamma=.. radius=..
 eps=.. a=.. b=.. x=.. j=.. g=.. sig=.. lo=.. up=..` (all reals as IEEE bit patterns).
 Answers `ok b0=.. b1=.. b2=.. b3=.. b4=.. b5=..`; with alias=1 the output is b0. -/
-def doProx (l : Line) : Option String := do
+def doProx (aux : Bool) (l : Line) : Option String := do
   let name ← l.get? "id"
   let flags := (l.get? "flags").getD ""
-  let id ← parseId name flags
   let alias ← l.bool? "alias"
   let n ← l.nat? "n"
   let mc ← l.nat? "mc"
@@ -39,7 +39,12 @@ def doProx (l : Line) : Option String := do
     | 5 => up.getD i nanF
     | _ => nanF
   let iters := (l.nat? "iters").getD 1
-  let P := prog (floatFns n mc w p) par id
+  -- `prox`: the bodies of `prog`; `aux` (round 4): the bodies of `auxProg`
+  -- (`_abs_pow_ufunc`, gradient operators); an id unknown to the requested table is `bad-op`
+  let P : Stmt Float ←
+    if aux && name == "rosen" then some (rosenProg par.a n)
+    else if aux then (parseAuxId name flags).map (auxProg (floatFns n mc w p) (floatAux n mc) par)
+    else (parseId name flags).map (prog (floatFns n mc w p) par)
   -- `iters=K` (aliased only): K aliased calls on the same store (`aliasedCalls`)
   -- between the calls the store is re-tabulated (first n*mc entries of buffers 0-5) into arrays:
   -- the same values as `aliasedCalls … iters m`, without re-evaluating the functional memory of
@@ -67,7 +72,9 @@ def doClass (l : Line) : Option String := do
 
 def handle (l : Line) : Option String :=
   match l.op with
-  | "prox" => doProx l
+  | "prox" => doProx false l
+  | "aux" => doProx true l
+  | "auxtable" => some ("ok classes=" ++ ",".intercalate (auxTable.map (·.1)))
   | "class" => doClass l
   | "table" => some ("ok classes=" ++ ",".intercalate (classTable.map (·.1)))
   | _ => none
